@@ -95,11 +95,24 @@ func (e *Eng) callsiteClauses(key string) []CallsiteClause {
 	}
 	var out []CallsiteClause
 	for _, c := range e.con.Callsites {
-		if c.Callee == key || strings.HasSuffix(key, "."+c.Callee) || strings.HasSuffix(key, ")."+c.Callee) || strings.HasSuffix(key, ":"+c.Callee) {
+		if c.Callee == key || strings.HasSuffix(key, "."+c.Callee) || strings.HasSuffix(key, ")."+c.Callee) || strings.HasSuffix(key, ":"+c.Callee) || globName(c.Callee, key) {
 			out = append(out, c)
 		}
 	}
 	return out
+}
+
+// globName: a callee pattern `Prefix*` matches every function or method whose own name starts with Prefix (generated
+// code derives such names from the schema: FindManyItemByIDs, entityResolverNameForItem).
+func globName(pat, key string) bool {
+	if !strings.HasSuffix(pat, "*") || len(pat) < 2 {
+		return false
+	}
+	name := key
+	if i := strings.LastIndexAny(name, ".:"); i >= 0 {
+		name = name[i+1:]
+	}
+	return strings.HasPrefix(name, strings.TrimSuffix(pat, "*"))
 }
 
 func (e *Eng) evalCall(st *State, call *ast.CallExpr) []*Val {
